@@ -41,6 +41,21 @@ func verifPre(name string, lo, hi int) string {
 	return s
 }
 
+// verifMeta: semver build metadata of lo..hi bytes over [0-9A-Za-z-].
+func verifMeta(name string, lo, hi int) string {
+	s := v.NondetStringRange(name, lo, hi)
+	v.Assume(v.AllIn(s, "0-9a-zA-Z-"))
+	return s
+}
+
+// verifVerbatim: a version that is not a semantic version (schema none, or
+// one that does not parse) over the characters such versions use.
+func verifVerbatim(name string, lo, hi int) string {
+	s := v.NondetStringRange(name, lo, hi)
+	v.Assume(v.AllIn(s, "0-9a-z.+_-"))
+	return s
+}
+
 func verifInfo(ver, pre, meta, rel, epoch string) *nfpm.Info {
 	return &nfpm.Info{Name: "p", Arch: "amd64", Platform: "linux", Version: ver, Prerelease: pre, VersionMetadata: meta,
 		Release: rel, Epoch: epoch, Description: "d", Maintainer: "m", MTime: time.Unix(1700000000, 0).UTC()}
@@ -59,7 +74,7 @@ func verifVersionField(info *nfpm.Info) (string, bool) {
 func Verif_C14_IpkSyntax() {
 	ver := verifNum("maj", 2) + "." + verifNum("min", 1) + "." + verifNum("pat", 1)
 	pre := verifPre("pre", 0, v.Bound("C14.prelen", 3, 5))
-	meta := verifAlnum("meta", 0, 2)
+	meta := verifMeta("meta", 0, 2)
 	rel := verifAlnum("rel", 0, 1)
 	epoch := ""
 	if v.NondetBool("hasEpoch") {
@@ -131,4 +146,13 @@ func Verif_C14_IpkEpochDominates() {
 	v.Reach("C14.ipk.epoch.ran")
 	v.Assert(ok, "ipk-versions-comparable")
 	v.Assert(c < 0, "ipk-higher-epoch-sorts-after")
+}
+
+// Verif_C14_IpkVerbatim: a version that is used as written (schema none / not a
+// semantic version: no prerelease, no metadata) is the control Version verbatim.
+func Verif_C14_IpkVerbatim() {
+	ver := verifVerbatim("ver", 1, v.Bound("C14.verbatimlen", 3, 5))
+	got, ok := verifVersionField(verifInfo(ver, "", "", "", ""))
+	v.Reach("C14.ipk.verbatim.ran")
+	v.Assert(ok && got == ver, "ipk-verbatim-version-kept-as-written")
 }
